@@ -1722,6 +1722,28 @@ private:
       }
       ::SSL_set_fd(s->ssl, cfd);
       ::SSL_set_connect_state(s->ssl);
+      // A connection made to a host name: send the name (SNI) and, when the peer
+      // is verified, require the certificate to be issued for it. Chain
+      // validation alone accepts any certificate of the trusted CA.
+      if (!isIPv4 && !isIPv6)
+      {
+        (void)::SSL_set_tlsext_host_name(s->ssl, cr.host.c_str());
+        if (_config.clientTls.verifyPeer && ::SSL_set1_host(s->ssl, cr.host.c_str()) != 1)
+        {
+          decltype(_cbs.onClose) closeCb;
+          { std::lock_guard<std::mutex> g(_cbMutex); closeCb = _cbs.onClose; }
+          if (closeCb)
+          {
+            closeCb(cr.sid, TransportErrorInfo{TransportError::TLSHandshake, "SSL_set1_host failed"});
+          }
+          err(TransportError::TLSHandshake, "SSL_set1_host failed");
+          cancelConnectTimeout(s.get());
+          ::SSL_free(s->ssl);
+          s->ssl = nullptr;
+          ::close(cfd);
+          return false;
+        }
+      }
       s->tlsState = TlsState::Handshake;
       s->tlsStart = MonoClock::now();
       s->tlsWantWrite = true; // Client needs to send ClientHello first
